@@ -165,3 +165,14 @@ Definition async_call_duration (smol : bool) (cfg_lifetime cfg_qt : N) : N :=
   (if smol then async_outer_timeout_smol else async_outer_timeout_tokio) (async_outer_timeout_src cfg_lifetime cfg_qt) 0.
 Definition async_attempt_duration (smol : bool) (cfg_lifetime cfg_qt : N) : N :=
   (if smol then async_attempt_timeout_smol else async_attempt_timeout_tokio) 0 (async_attempt_timeout_src cfg_lifetime cfg_qt).
+
+(* ---------------------------------------------------------------- the typed query and its reusable buffer *)
+(* query_rrset takes the client's buffer, gives it the configured size (whatever it held before),
+   lets the raw query receive into it, cuts it to the received length and parses that.
+   [old]: what the buffer held (bytes of earlier responses); [d]: the accepted datagram / TCP body. *)
+Definition recv_over (old d : list byte) : list byte := d ++ skipn (length d) old.
+Definition typed_parse_input (std : bool) (old d : list byte) (buffer_size : N) : list byte :=
+  let room := if std then std_take_buf_len 0 buffer_size else async_take_buf_len 0 buffer_size in
+  let got := recv_into room d in
+  let n := (if std then std_rrset_parse_len else async_rrset_parse_len) (lenN got) buffer_size in
+  firstn (N.to_nat n) (recv_over old got).
